@@ -2,6 +2,19 @@
 # Runs the pinned baseline suite with the hook guard OFF and compares against BASELINE.json.
 unset BASILISP_VERIF_SIM
 OUT=${1:-/verif/.cache/baseline.junit.xml}
+# The suite imports the native extension from the git-ignored build output
+# /repo/src/basilisp/_lang.abi3.so: make sure it is built from the CURRENT /repo/rust.
+/venv/bin/python - <<'PY' || exit 2
+import filecmp, os, shutil, sys
+sys.path.insert(0, '/verif')
+os.environ.pop('BASILISP_VERIF_SIM', None)
+from sim import bootstrap as B
+so = B.ensure_native(verbose=True)
+dst = os.path.join(B.REPO, 'src', 'basilisp', '_lang.abi3.so')
+if not os.path.exists(dst) or not filecmp.cmp(so, dst, shallow=False):
+    shutil.copyfile(so, dst + '.tmp'); os.replace(dst + '.tmp', dst)
+    print('[baseline] installed native extension built from the current rust sources')
+PY
 mkdir -p "$(dirname "$OUT")"
 cd /repo && /venv/bin/python -m pytest -ra -q -p no:cacheprovider --timeout=900 --continue-on-collection-errors --junitxml="$OUT" >/verif/.cache/baseline.log 2>&1
 /venv/bin/python - "$OUT" <<'PY'
